@@ -128,6 +128,26 @@ pub fn run(case: &Value, ctx: &Ctx) -> Outcome {
             out.check(stat_close(f, want, 1e-9), || format!("statrel/relation/{name}"), || json!({"base": b.to_string(), "final": f.to_string(), "factor": factor, "ops": ops}));
         }
     }
+    // (2b) non-finite monomorphic entries (a masked spectrum): the statistics that never look at the corners are unchanged
+    if let Some(list) = case["mono_specials"].as_array() {
+        for (u, v) in [(f64::NAN, f64::NAN), (f64::INFINITY, f64::INFINITY), (f64::NEG_INFINITY, 3.0), (f64::NAN, 9.0)] {
+            let mut x = cur.clone();
+            let n = x.len();
+            if n < 2 { continue; }
+            x[0] = u;
+            x[n - 1] = v;
+            let masked = Scs::new(x, cur_shape.clone()).unwrap();
+            for c in list {
+                let name = c.as_str().unwrap();
+                if let (Ok(Ok(plain)), Ok(m)) = (guarded(|| lib_stat(name, &cur_scs)), guarded(|| lib_stat(name, &masked))) {
+                    match m {
+                        Ok(got) => out.check(stat_close(got, plain, 1e-12), || format!("statrel/non-finite-monomorphic/{name}"), || json!({"corners": [u.to_string(), v.to_string()], "got": got.to_string(), "want": plain.to_string(), "ops": ops})),
+                        Err(e) => out.fail(format!("statrel/non-finite-monomorphic-error/{name}"), json!({"error": e})),
+                    }
+                }
+            }
+        }
+    }
     // (3) f3 / f4 from the f2 of the two-population marginals, on real marginals
     if let Some(m) = case["marginal_f2"].as_object() {
         let d = cur_shape.len();
